@@ -25,7 +25,7 @@ import numpy as np
 
 from harness import dmutil as du
 from harness import tabutil as tu
-from harness.common import Driver, Result, err_class
+from harness.common import Driver, Result, err_class, impl_guard
 
 LEVEL = "proof"
 TRUSTED_BASE = [
@@ -491,15 +491,22 @@ def run(ctx):
         check_infidelity(res, drv, rng, rng.randint(1, 3 if ctx.quick else 4), signs=(k % 2 == 0))
     # exhaustive: every ordered pair of one-qubit stabilizer states (6 x 6) on every run; every ordered pair of the 60 two-qubit
     # stabilizer states in the thorough tier (a seeded sample of 200 pairs in the quick tier)
-    s1 = all_stabilizer_states(1)
+    # the enumeration runs graphiq's own gate functions (BFS from |0..0>): an exception there is reported, not a harness crash; and the
+    # pools must have the known sizes (6, 60) — a changed gate function could otherwise shrink the "every ordered pair" streams silently
+    s1, s2 = [], []
+    with impl_guard(res, "infidelity:enumeration"):
+        s1 = all_stabilizer_states(1)
+        s2 = all_stabilizer_states(2)
+    if (len(s1), len(s2)) != (6, 60):
+        res.exact_break("coverage collapsed: all_stabilizer_states", input={"n": [1, 2]}, impl=f"{len(s1)} one-qubit and {len(s2)} two-qubit states enumerated through hadamard_gate / phase_gate / cnot_gate",
+                        model="6 and 60 stabilizer states")
     for a in s1:
         for b in s1:
             check_infidelity(res, drv, rng, 1, True, pair=(a, b))
-    s2 = all_stabilizer_states(2)
     res.extra["stabilizer_states_enumerated"] = {"n=1": len(s1), "n=2": len(s2)}
     pairs2 = [(a, b) for a in s2 for b in s2]
     if ctx.quick:
-        pairs2 = rng.sample(pairs2, 200)
+        pairs2 = rng.sample(pairs2, min(200, len(pairs2)))
     for a, b in pairs2:
         check_infidelity(res, drv, rng, 2, True, pair=(a, b))
     res.notes.append(f"Infidelity across representations: all {len(s1) ** 2} ordered pairs of 1-qubit stabilizer states; "
